@@ -17,6 +17,7 @@ The oracle below is evaluated on the implementation's transcript only (python, i
                  epoch's polynomial, or whose index is not a member index of its group (from plog: natural traffic, and inject)
   R.refused      a valid partial of another current member for head+1 is refused
   R.count        the head moves on an injected partial that must not count
+  R.leaver-running  a node that left the group and was told so still runs its beacon handler at the transition
 
 Every rule carries a cause class so that a known finding suppresses only its own input class.
 """
@@ -49,13 +50,13 @@ def spec(members):
 def s_few_remainers(scheme, backend, lead=3):
     """{0,1,2,3} thr 3 -> {0,1,J4,J5} thr 3: fewer remainers (2) than the old threshold; the leavers stop at the transition"""
     ops = steps(2 * K) + [f"reshare 3 {spec([(0, 0), (1, 1), (4, 2), (5, 3)])} {lead}"] + [f"announce {i}" for i in (0, 1, 2, 3, 4, 5)]
-    ops += steps((lead + 5) * K)
+    ops += steps((lead + 5) * K) + ["plog"]
     return mk("few-remainers", 4, 3, ops, spare=2, scheme=scheme, backend=backend)
 
 
 def s_thr_raise(scheme, backend):
     """same four members, threshold 3 -> 4"""
-    ops = steps(2 * K) + [f"reshare 4 {spec([(i, i) for i in range(4)])} 2"] + [f"announce {i}" for i in range(4)] + steps(6 * K)
+    ops = steps(2 * K) + [f"reshare 4 {spec([(i, i) for i in range(4)])} 2"] + [f"announce {i}" for i in range(4)] + steps(6 * K) + ["plog"]
     return mk("thr-raise", 4, 3, ops, scheme=scheme, backend=backend)
 
 
@@ -68,7 +69,7 @@ def s_thr_lower(scheme, backend):
 
 def s_gap_new(scheme, backend):
     """{0,1,2,3} thr 3 -> {0:0,1:1,3:3} thr 3: the new group has a hole at index 2 (a participant evicted during the resharing)"""
-    ops = steps(2 * K) + [f"reshare 3 {spec([(0, 0), (1, 1), (3, 3)])} 2"] + [f"announce {i}" for i in range(4)] + steps(6 * K)
+    ops = steps(2 * K) + [f"reshare 3 {spec([(0, 0), (1, 1), (3, 3)])} 2"] + [f"announce {i}" for i in range(4)] + steps(6 * K) + ["plog"]
     return mk("gap-new", 4, 3, ops, scheme=scheme, backend=backend)
 
 
@@ -81,7 +82,7 @@ def s_gap_init(scheme, backend):
 def s_joiner_needed(scheme, backend):
     """{0,1,2,L3} thr 3 -> {J4:0,0:1,1:2,2:3} thr 3 (indices move); after the transition node 2 stops: 0, 1 and the joiner must carry on"""
     ops = steps(2 * K) + [f"reshare 3 {spec([(4, 0), (0, 1), (1, 2), (2, 3)])} 3"] + [f"announce {i}" for i in (0, 1, 2, 3, 4)]
-    ops += steps(5 * K) + ["stop 2"] + steps(6 * K)
+    ops += steps(5 * K) + ["stop 2"] + steps(6 * K) + ["plog"]
     return mk("joiner-needed", 4, 3, ops, spare=1, scheme=scheme, backend=backend)
 
 
@@ -123,6 +124,13 @@ def s_leaver_sends(scheme, backend):
     ops = steps(2 * K) + [f"reshare 3 {spec([(0, 0), (1, 1), (2, 2)])} 2", "announce 0", "announce 1", "announce 2"]
     ops += steps(3 * K) + ["stop 2"] + steps(K + 1) + ["inject 0 0 3", "inject 0 0 2", "inject 1 0 2", "plog", "inject 0 1 2"] + steps(2)
     return mk("leaver-sends", 4, 3, ops, scheme=scheme, backend=backend)
+
+
+def s_leaver_core(scheme, backend):
+    """{0,1,2,L3} thr 3 -> {0,1,2} thr 3; the leaver is told through the REAL core.onDKGCompleted (leaveNetwork path)"""
+    ops = steps(2 * K) + [f"reshare 3 {spec([(0, 0), (1, 1), (2, 2)])} 2", "announce 0", "announce 1", "announce 2", "announce 3 core"]
+    ops += steps(4 * K) + ["plog"]
+    return mk("leaver-core", 4, 3, ops, scheme=scheme, backend=backend)
 
 
 def s_gap_hole(scheme, backend):
@@ -188,13 +196,14 @@ FAMILIES = {
     "gap-new": (s_gap_new, ("C07", "C03")), "gap-init": (s_gap_init, ("C05", "C03")), "joiner-needed": (s_joiner_needed, ("C07", "C05")),
     "late-one": (s_late_one, ("C07",)), "late-needed": (s_late_needed, ("C07", "C05")), "late-all": (s_late_all, ("C07", "C03")),
     "late-leaver": (s_late_leaver, ("C03", "C07")), "leaver-sends": (s_leaver_sends, ("C03", "C07")), "gap-hole": (s_gap_hole, ("C03",)),
+    "leaver-core": (s_leaver_core, ("C07",)),
 }
 
 QUICK = {
     "C05": [("few-remainers", CH, "mem"), ("gap-init", UN, "mem"), ("failput:err", CH, "bolt"), ("failput:cancel", CH, "bolt"), ("failput:err", UN, "mem"),
             ("failput-spare:err", CH, "mem")],
     "C07": [("thr-raise", UN, "mem"), ("thr-lower", CH, "bolt"), ("gap-new", UN, "mem"), ("joiner-needed", CH, "mem"), ("late-one", CH, "mem"),
-            ("late-needed", UN, "mem"), ("late-all", CH, "mem")],
+            ("late-needed", UN, "mem"), ("late-all", CH, "mem"), ("leaver-core", UN, "mem")],
     "C03": [("gap-hole", CH, "mem"), ("late-leaver", CH, "mem"), ("leaver-sends", UN, "mem")],
 }
 
@@ -250,7 +259,7 @@ def explore_part(prop, ctx, res, tier=None):
         results += r
         flakes += f
         # a failing input that is not a known finding is in hand: the wide sweep adds nothing
-        if any((not x["ok"]) and any(not is_late_class(v[0]) for v in x["viol"]) for x in r):
+        if any((not x["ok"]) and any(not no_retry(v[0]) for v in x["viol"]) for x in r):
             break
     report(res, results)
     return coverage(results, flakes), results
@@ -378,6 +387,7 @@ def oracle(case, res, dump):
     idx0 = case.get("idx") or list(range(n0))
     epochs = [{"id": 0, "members": {i: idx0[i] for i in range(n0)}, "thr": case["t"], "tr": 0}]
     told = {}        # (node, epoch) -> {"late": bool}   remain/join announcements that were accepted
+    left = {}        # node -> (epoch it leaves at, told through core?)
     armed = set()    # nodes with a store failure waiting to happen
     stable_since, heal_deadline = {}, {}
     step_no = 0
@@ -436,6 +446,8 @@ def oracle(case, res, dump):
             i = int(f[1])
             e = epochs[-1]
             told[(i, e["id"])] = {"late": cur.get("role") == "remain" and prev["h"][i] >= e["tr"] - 1}
+        if f[0] == "announce" and (cur.get("role") or "").startswith("leave"):
+            left[int(f[1])] = (epochs[-1], "core" in cur["role"])
         if f[0] == "failput":
             armed.add(int(f[1]))
         if f[0] == "inject":
@@ -462,6 +474,12 @@ def oracle(case, res, dump):
                 flag("P5.iv", f"op {k} ({op}): stopped node {i} moved {prev['h'][i]} -> {cur['h'][i]}")
             if cur["h"][i] > cur["r"]:
                 flag("P5.i", f"op {k} ({op}): node {i} stores round {cur['h'][i]} above the clock round {cur['r']}")
+        # --- a leaver that was told stops before the transition (leaveNetwork: StopAt(transition time - 1))
+        for i, (x, via_core) in left.items():
+            if cur["up"][i] and cur["r"] >= x["tr"] and op.startswith("step"):
+                flag("R.leaver-running", f"op {k} ({op}): node {i} left the group at the resharing of epoch {x['id']} (transition round {x['tr']}) and was told so"
+                                         + (" through core.onDKGCompleted" if via_core else "") + f"; at clock round {cur['r']} its beacon handler is still running"
+                                         + (f" with the vault of epoch {cur['ep'][i]}" if cur.get("ep") else ""))
         # --- switch point
         if cur.get("ep"):
             for i in range(total):
@@ -643,13 +661,18 @@ def is_late_class(rule):
     return rule.endswith("-late") or rule.endswith("-delayed") or rule.endswith("-late-needed")
 
 
+def no_retry(rule):
+    """classes that do not depend on scheduling (the known findings): nothing to retry or to confirm alone"""
+    return is_late_class(rule) or rule == "R.leaver-running"
+
+
 def run_with_retries(case, maxwait, quiet, model, retries=2):
     attempts = []
     for a in range(retries + 1):
         r = run_case(case, maxwait * (1 + a), quiet * (1 + a), model)
         attempts.append(r)
-        if r["ok"] or all(is_late_class(v[0]) for v in r["viol"]):
-            break      # (the late-registration classes do not depend on scheduling: nothing to retry)
+        if r["ok"] or all(no_retry(v[0]) for v in r["viol"]):
+            break
     last = attempts[-1]
     last["attempts"] = len(attempts)
     # a rule counts only if every attempt shows it
@@ -674,7 +697,7 @@ def run_cases(cases, tier, model_ok=True, workers=None):
     # goroutine scheduling on a busy host
     flakes = 0
     for r in results:
-        if r["ok"] or all(is_late_class(v[0]) for v in r["viol"]):
+        if r["ok"] or all(no_retry(v[0]) for v in r["viol"]):
             continue
         case = dict(r["case"], ops=r["ops"])
         again = run_case(case, maxwait * 4, quiet * 4, model)
